@@ -1,4 +1,16 @@
-(* placeholder; regenerated by h11 -gen *)
+(* regenerated on every run by `h11 -gen` : task.Status constants and task.Status.X evaluated by
+   the running code on all 5x5 pairs (core/task/status.go) *)
 From Verif Require Import Common.
 Open Scope N_scope.
-Definition statusX_enum : list (N * N * N) := [].
+Definition go_status_UNDEFINED : N := 0.
+Definition go_status_INACTIVE : N := 1.
+Definition go_status_PARTIAL : N := 2.
+Definition go_status_ACTIVE : N := 3.
+Definition go_status_UNDEPLOYABLE : N := 4.
+Definition statusX_enum : list (N * N * N) := [
+  (0, 0, 0); (0, 1, 0); (0, 2, 0); (0, 3, 0); (0, 4, 0);
+  (1, 0, 0); (1, 1, 1); (1, 2, 2); (1, 3, 2); (1, 4, 4);
+  (2, 0, 0); (2, 1, 2); (2, 2, 2); (2, 3, 2); (2, 4, 4);
+  (3, 0, 0); (3, 1, 2); (3, 2, 2); (3, 3, 3); (3, 4, 4);
+  (4, 0, 0); (4, 1, 4); (4, 2, 4); (4, 3, 4); (4, 4, 4)
+].
